@@ -54,8 +54,9 @@ inductive EncOp where
   | packedFixed64 (tag : Nat) (vs : List Nat)
   | raw (d : Bytes)
   | mapHeader (tag : Nat) (size : Nat)
-  /-- `EncodeNested(tag, m)`: `size` = what `csproto.Size(m)` returns; `how`: 0 = MarshalerTo,
-      1 = Marshaler, 2 = runtime; `body` = `none` when the nested marshal fails, else its bytes -/
+  /-- `EncodeNested(tag, m)`: `size` = what `csproto.Size(m)` returns (consulted on the MarshalerTo
+      path only); `how`: 0 = MarshalerTo, 1 = Marshaler, 2 = runtime (`csproto.Marshal`); `body` =
+      `none` when the nested marshal fails, else the bytes it produces -/
   | nested (tag : Nat) (size : Nat) (how : Nat) (body : Option Bytes)
 deriving Repr
 
@@ -84,7 +85,7 @@ def EncOp.wire : EncOp → Bytes
       encTag t wtLen ++ encVarint (vs.length * 8) ++ (vs.map encFixed64).flatten
   | .raw d => d
   | .mapHeader t sz => encTag t wtLen ++ encVarint sz
-  | .nested t sz _ body => encTag t wtLen ++ encVarint sz ++ (body.getD [])
+  | .nested t sz how body => encTag t wtLen ++ encVarint (if how = 0 then sz else (body.getD []).length) ++ (body.getD [])
 
 /-- result of one encoder call: new state, or the call returned an error (`EncodeNested` only;
     the state after the error is kept), or panicked -/
@@ -107,22 +108,25 @@ def Enc.step (e : Enc) : EncOp → EncOut
       e.copy v
   | .raw d => if d.isEmpty then .ok e else EncOut.ofRes (e.copy d)
   | .nested t sz how body =>
-      match (do let e ← e.store (encTag t wtLen); e.store (encVarint sz) : Res Enc) with
-      | .ok e1 =>
-        match body with
-        | none =>
-          -- `tv.MarshalTo(e.p[e.offset:])` evaluates the slice expression before the call
-          if how = 0 ∧ ¬ (e1.off ≤ e1.cap) then .panic else .err e1
-        | some b =>
-          if how = 0 then
-            -- MarshalTo stores `b` into e.p[offset:], then `offset += sz`
+      if how = 0 then
+        -- MarshalerTo: key and `Size(m)` first, then `tv.MarshalTo(e.p[e.offset:])`, then `offset += sz`
+        match (do let e ← e.store (encTag t wtLen); e.store (encVarint sz) : Res Enc) with
+        | .ok e1 =>
+          match body with
+          | none => .err e1        -- (the slice expression cannot panic here: the stores succeeded)
+          | some b =>
             match e1.store b with
             | .ok e2 => .ok { e2 with off := e1.off + sz }
             | _ => .panic
-          else
-            -- copy(e.p[e.offset:], buf); e.offset += sz
-            EncOut.ofRes (e1.copyAdv b sz)
-      | _ => .panic
+        | _ => .panic
+      else
+        -- Marshaler / runtime: marshal first; on success exactly `EncodeBytes(tag, buf)`
+        match body with
+        | none => .err e
+        | some b => EncOut.ofRes do
+            let e ← e.store (encTag t wtLen)
+            let e ← e.store (encVarint b.length)
+            e.copy b
   | op@(.packedBool _ vs) => if vs.isEmpty then .ok e else EncOut.ofRes (e.store op.wire)
   | op@(.packedVarint _ vs) => if vs.isEmpty then .ok e else EncOut.ofRes (e.store op.wire)
   | op@(.packedZigzag32 _ vs) => if vs.isEmpty then .ok e else EncOut.ofRes (e.store op.wire)
